@@ -542,6 +542,32 @@ def run(tier, seed):
                 lx = Node("-", [Node("+", [lx, d]), d])
         for op in CMP:
             cases.append(Node(op, [lx, ly]))
+    # sub-display-precision residuals inside multi-commodity balances: (x C + y D) -/+ (x C * f)
+    # with f = 1 - 10^-k, so that one component is non-zero but displays as zero (its precision
+    # counter exceeds the commodity's display precision): nothing may be dropped or rounded
+    n_tiny = 120 if tier == "quick" else 2500
+    if search:
+        n_tiny *= 5
+    for i in range(n_tiny):
+        c1, c2 = rng.sample(["EUR", "USD", "BTC", "XAU"], 2)
+        p1 = COMMS[c1]
+        x = Fraction(rng.randint(1, 10 ** rng.choice([1, 3, 6])), 10 ** p1)
+        y = Fraction(rng.randint(1, 10 ** 4), 10 ** COMMS[c2]) * rng.choice([1, -1])
+        k = rng.randint(p1 + 1, p1 + 5)
+        f = 1 - Fraction(1, 10 ** k) if rng.random() < 0.7 else 1 + Fraction(1, 10 ** k)
+        bal = Node("+", [Leaf("amt", x, p1, c1), Leaf("amt", y, COMMS[c2], c2)])
+        if rng.random() < 0.3:
+            bal = Node("+", [bal, Leaf("amt", Fraction(rng.randint(1, 99)), 0, "XAU" if "XAU" not in (c1, c2) else "PQ")])
+        prod = Node("*", [Leaf("amt", x, p1, c1), Leaf("amt", f, k, "")])
+        t = Node(rng.choice(["-", "-", "+"]), [bal, prod])
+        shape = rng.random()
+        if shape < 0.35:
+            t = Node("*", [t, Leaf("amt", Fraction(10 ** rng.choice([3, 6, 9])), 0, "")])
+        elif shape < 0.6:
+            t = Node("+", [t, prod])          # (B - p) + p must give B back exactly
+        elif shape < 0.75:
+            t = Node("-", [t, Leaf("amt", y, COMMS[c2], c2)])
+        cases.append(t)
     # long folds
     for i in range(20 if tier == "quick" else 400):
         t = gen_leaf(rng)
